@@ -485,6 +485,16 @@ def r13e(rep, F):
                         why = 'the slot overwritten with the last entry is not q[index + constant]'
                     else:
                         erased = delta + a.get(1, 0)
+                elif x.get('callee') in ('std::swap', 'std::iter_swap') and len(x['ch']) >= 2 and \
+                        any(c.get('callee') == 'std::vector::back' and key(fn, c['ch'][0]) == qdecl for c in fn.walk(s_)):
+                    # swap-and-pop spelled std::swap(q[X], q.back()): the slot that receives the last entry is q[X]
+                    slots = [fn.strip(c_) for c_ in x['ch']]
+                    slots = [t_ for t_ in slots if t_ is not None and t_.get('oop') == '[]' and key(fn, t_['ch'][0]) == qdecl]
+                    a = lin.lin(fn, slots[0]['ch'][1]) if len(slots) == 1 else None
+                    if a is None or a.get(ikey) != 1 or set(a) - {ikey, 1}:
+                        why = 'the slot swapped with the last entry is not q[index + constant]'
+                    else:
+                        erased = delta + a.get(1, 0)
                 elif x.get('callee') == 'std::vector::pop_back' and key(fn, x['ch'][0]) == qdecl:
                     pass
                 elif x.get('callee') == 'std::vector::erase' and key(fn, x['ch'][0]) == qdecl:
